@@ -174,7 +174,7 @@ def build_traces(path, tier, seed):
 def run(tier, seed):
     rep = Report("C06", tier, seed)
     wd = workdir("C06")
-    maxlen, nmax = (5, 300) if tier == "quick" else (6, 1100)
+    maxlen, nmax = (5, 300) if tier == "quick" else (7, 2100)
     tab, lent = os.path.join(wd, "table.txt"), os.path.join(wd, "len.txt")
     with warnings.catch_warnings():
         warnings.simplefilter("ignore")
